@@ -97,6 +97,8 @@ fn cases(tier: Tier) -> &'static Vec<Case> {
                     ("respond", Finish::Respond(RespSpec::ok(4))),
                     ("drop", Finish::Drop),
                     ("writer", Finish::Writer { parts: raw_response_parts(0, 5, 2), flush: true }),
+                    // dropped while the handler thread unwinds from a panic
+                    ("panic", Finish::Panic),
                 ] {
                     for (fol, fb) in followers(tier) {
                         let mut bytes = msg.clone();
@@ -159,7 +161,7 @@ impl Check for C09 {
     }
     fn rule(&self, tier: Tier) -> String {
         format!(
-            "first request with body framing {:?} x consumption {{0, 1, len/2, len-1, len bytes without seeing end-of-stream, len/2 or len bytes followed by a read with an empty buffer, to end-of-stream}} with read sizes 1/7/4096 x finish {{respond, drop, into_writer raw response}} x following pipelined requests {:?}; {} conversations; the requests delivered after the body-bearing one must be exactly the following ones (heads and bodies), each answered, no 400; non-trivial = the body was not read to its end",
+            "first request with body framing {:?} x consumption {{0, 1, len/2, len-1, len bytes without seeing end-of-stream, len/2 or len bytes followed by a read with an empty buffer, to end-of-stream}} with read sizes 1/7/4096 x finish {{respond, drop, into_writer raw response, drop during a handler panic}} x following pipelined requests {:?}; {} conversations; the requests delivered after the body-bearing one must be exactly the following ones (heads and bodies), each answered, no 400; non-trivial = the body was not read to its end",
             framings(tier).iter().map(|f| f.0.clone()).collect::<Vec<_>>(), followers(tier).iter().map(|f| f.0).collect::<Vec<_>>(), cases(tier).len()
         )
     }
